@@ -90,6 +90,7 @@ type BashLine struct {
 	Holes    []HoleCtx
 	Closed   bool   // all quotes/substitutions closed at end of line
 	Problem  string // why not closed / what could not be scanned
+	Mids     []string // else / elif seen at command start
 	Opens    []string // block keywords opened: if, while, for, {, case
 	Closes   []string
 	Commands []string // command words seen (top level and substitutions)
@@ -228,6 +229,8 @@ func (s *bashScanner) keyword(w string) {
 		s.out.Opens = append(s.out.Opens, w)
 	case "fi", "done", "}", "esac":
 		s.out.Closes = append(s.out.Closes, w)
+	case "else", "elif":
+		s.out.Mids = append(s.out.Mids, w)
 	}
 }
 
